@@ -173,3 +173,39 @@ func zzStubG2SetBytesFree(g *G2, b []byte) error {
 	zzHavoc(g)
 	return nil
 }
+
+// C13/C02: conversion of a list of projective points to affine form (the first step of every
+// product of pairings, hence of BLS verification): for every list of 1..3 points - coordinates
+// symbolic over the small-field model GF(13), including points with z = 0 (the identity) - every
+// finite point comes out as (x/z, y/z, 1), whatever the other points of the list are.  (A single
+// identity in the list must not turn the other points into (0,0,1): that makes the pairing product
+// 1 and lets the all-zero "identity" signature verify for every key and message.)
+//
+//zz: prop=C13 also=C02 tier=quick backend=bv use=fpsmall timeout=300
+func ZZ_C13_bls12381_affinize_handles_identity_points() {
+	if !zzSymbolic() {
+		zzModelOnly() // small-field model
+	}
+	n := zzPick("points", 1, 2, 3)
+	pts := make([]*G1, n)
+	xs, ys, zs := make([]uint64, n), make([]uint64, n), make([]uint64, n)
+	raw := make([]uint8, 3*n)
+	zzFill("coord", raw)
+	cs := []bool{}
+	for i := range pts {
+		xs[i], ys[i], zs[i] = uint64(raw[3*i]), uint64(raw[3*i+1]), uint64(raw[3*i+2])
+		cs = append(cs, raw[3*i] < 13, raw[3*i+1] < 13, raw[3*i+2] < 13)
+	}
+	zzAssumeNote(zzAnd(cs...), "coordinates are elements of the model field GF(13)")
+	for i := range pts {
+		pts[i] = &G1{x: ff.ZZSmall(xs[i]), y: ff.ZZSmall(ys[i]), z: ff.ZZSmall(zs[i])}
+	}
+	out := affinize(pts)
+	ok := []bool{}
+	for i := range pts {
+		finite := zs[i] != 0
+		ox, oy, oz := ff.ZZSmallVal(&out[i].x), ff.ZZSmallVal(&out[i].y), ff.ZZSmallVal(&out[i].z)
+		ok = append(ok, zzImplies(finite, zzAnd(ff.ZZSmallMul(ox, zs[i]) == xs[i], ff.ZZSmallMul(oy, zs[i]) == ys[i], oz == 1)))
+	}
+	zzAssert(zzAnd(ok...), "every finite point is converted to (x/z, y/z, 1) regardless of identity points elsewhere in the list")
+}
